@@ -709,6 +709,8 @@ fn probe_nul_variant() -> &'static str {
 }
 
 pub fn run(run: &mut Run) {
+    // the case lines carry whole double arrays and word-id tables (thorough worlds reach ~10 MB): they are legitimate
+    run.max_payload = 100_000_000;
     let variant = probe_nul_variant();
     run.extra.insert("nul_variant".into(), serde_json::json!(variant));
     NUL_VARIANT.with(|v| *v.borrow_mut() = variant);
